@@ -415,7 +415,7 @@ class Facts:
         go(fn, depth)
         return out
 
-    def reaching_defs(self, fn, name_node):
+    def reaching_defs(self, fn, name_node, with_stmt=False):
         """Value expressions of the assignments to a local that may reach
         this use of it (some path from the assignment to the use passes no
         other assignment of the same name). For/with/unpacking definitions
@@ -449,9 +449,9 @@ class Facts:
                 continue
             try:
                 if g.reaches(st, use, avoiding=others):
-                    out.append(val)
+                    out.append((st, val) if with_stmt else val)
             except Exception:
-                out.append(val)
+                out.append((st, val) if with_stmt else val)
         return out
 
     def consts(self, fn, pred):
@@ -573,7 +573,7 @@ class Facts:
         out = set()
         for t in self.guards(node, fn):
             out |= self.flow.atoms(t, fn, bind)
-            if _depth < 3:
+            if _depth < 1:
                 for c in ast.walk(t):
                     if isinstance(c, ast.Call):
                         callee = self.flow.resolve_call(c, fn)
